@@ -29,7 +29,7 @@ ASSUMPTIONS = [
     'not a violation; the residual rejection rate is reported',
 ]
 BUDGET = {'quick': dict(examples=1200, shards=8, seconds=80),
-          'thorough': dict(examples=40000, shards=16, seconds=1200)}
+          'thorough': dict(examples=100000, shards=16, seconds=1200)}
 
 TYPES = ['string', 'integer', 'number', 'boolean', 'date', 'datetime', 'time', 'year', 'array', 'object']
 # the permutation walk visits every entry once per cycle: repeated entries weight the type-producing steps
